@@ -120,6 +120,7 @@ func genFrames(r *vlib.R, maxLen int, short bool) [][]byte {
 	seen := map[string]bool{}
 	for len(frames) < n {
 		var l int
+		atLimit := false
 		switch {
 		case short:
 			l = 1 + r.Intn(6)
@@ -127,10 +128,13 @@ func genFrames(r *vlib.R, maxLen int, short bool) [][]byte {
 			l = cobsLens[r.Intn(len(cobsLens))]
 		case r.Chance(0.15):
 			l = maxP - r.Intn(2)
+		case r.Chance(0.15):
+			l = maxLen // cut down below to the longest frame whose encoded form still fits the read buffer
+			atLimit = true
 		default:
 			l = 1 + r.Intn(40)
 		}
-		if l > maxP {
+		if l > maxP && !atLimit {
 			l = maxP
 		}
 		f := make([]byte, l)
@@ -180,8 +184,22 @@ func genFrames(r *vlib.R, maxLen int, short bool) [][]byte {
 		default:
 			r.Read(f)
 		}
+		if atLimit {
+			f[0], f[1] = byte(0xA0+len(frames)), 0x5A // (the header first: it is part of what is measured)
+			// exactly at the limit: what Write produces for it (without the leading delimiter, with the trailing
+			// one) is maxLen bytes, or maxLen-1 where no frame comes to maxLen
+			for len(f) > 3 {
+				st, _, _, err := encodeFrames([][]byte{f}, maxLen)
+				if err == nil && len(st)-1 <= maxLen {
+					break
+				}
+				f = f[:len(f)-1]
+			}
+			l = len(f)
+		}
 		// make frames pairwise distinct: unique header where it fits
-		if l >= 3 {
+		if atLimit {
+		} else if l >= 3 {
 			f[0], f[1] = byte(0xA0+len(frames)), byte(l)
 		} else if r.Chance(0.5) {
 			f[0] = byte(0xA0 + len(frames))
